@@ -128,6 +128,24 @@ def slice_view(E, a, sl, node):
         off = a.off + (a.n - 1) * a.stride
         return Arr(a.ident, (a.n,), a.ty, a.kind, off, -a.stride, a.writeable)
     lo, hi, step, length = norm_slice(E, a.n, sl)
+    r = _slice_arr(E, a, sl, lo, hi, step, length)
+    try:
+        if step == 1:
+            parent = E.seq(a)
+            if sl.start is None and sl.stop is None:
+                r.sx, r.sx_heap = parent, E.st.heap.get(a.ident)
+            elif sl.start is None:
+                E.set_seq(r, 'seq_slice_to', parent, term_int(sl.stop))
+            elif sl.stop is None:
+                E.set_seq(r, 'seq_slice_from', parent, term_int(sl.start))
+            else:
+                E.set_seq(r, 'seq_slice', parent, term_int(sl.start), term_int(sl.stop))
+    except Unsupported:
+        pass
+    return r
+
+
+def _slice_arr(E, a, sl, lo, hi, step, length):
     return Arr(a.ident, (length,), a.ty, a.kind, simp(a.off + lo * a.stride) if not _is0(a.off) or True else lo,
                a.stride * step, a.writeable)
 
@@ -413,7 +431,16 @@ def arr_binop(E, op, a, b, node):
 
 
 def arr_compare(E, op, a, b, node):
-    return map_arr(E, [a, b], lambda x, y: E.compare(op, x, y, node), node)
+    r = map_arr(E, [a, b], lambda x, y: E.compare(op, x, y, node), node)
+    try:
+        if isinstance(a, Arr) and not isinstance(b, Arr):
+            sc = lift(b)
+            E.set_seq(r, 'seq_cmp_%s_%s' % (type(op).__name__, sc.ty), E.seq(a), sc.t)
+        elif isinstance(a, Arr) and isinstance(b, Arr):
+            E.set_seq(r, 'seq_cmp2_%s' % type(op).__name__, E.seq(a), E.seq(b))
+    except Unsupported:
+        pass
+    return r
 
 
 def list_binop(E, op, a, b, node):
@@ -484,6 +511,10 @@ def store_subscript(E, obj, slc_node, v, node):
             raise Unsupported('frame store key %r' % (idx,))
         E.mutate(obj.ident, node, 'column store')
         obj.cols = dict(obj.cols)
+        if obj.n is None:
+            if not isinstance(v, Arr):
+                raise Unsupported('scalar column in an empty DataFrame')
+            obj.n = v.n if not isinstance(v.n, int) else z3.IntVal(v.n)
         if isinstance(v, Arr):
             # (length mismatch raises ValueError in pandas)
             E.oblige('lib-pre', _eq_len(v.n, obj.n) if obj.cols or True else True, node,
